@@ -221,6 +221,8 @@ class DetLoop(asyncio.BaseEventLoop):
 
     def close(self):
         if not self.is_closed() and not self.is_running():
+            if getattr(self, "close_vtime", None) is None:
+                self.close_vtime = self.time()       # (the post-mortem drain below is not mosaik's time)
             try:
                 self.drain()
             except Livelock:
